@@ -245,7 +245,7 @@ theorem stepRaw_RE {s : SeqState} (hd : DevOk s.dev) (hde : DevOkE s.dev) (hi : 
           · apply RX_store
             have hmem : cfg ∈ s.dev.dmms := List.mem_of_getElem? hcfg
             exact addChannel_SX hi (freshChan_inv (hd.2 cfg hmem)) (freshChan_ei (hde.2 cfg hmem))
-  | target qs n => exact RX_store _ (RE_targetCore hi _ _)
+  | target qs n => exact RX_store _ (RX_orRollback hi (RE_targetCore hi _ _))
   | add p n proto =>
     simp only [stepRaw]
     apply RX_store; apply RX_markNonEmpty
@@ -302,10 +302,11 @@ theorem stepRaw_RE {s : SeqState} (hd : DevOk s.dev) (hde : DevOkE s.dev) (hi : 
             rw [validateChannel_get hv] at hc'; injection hc' with hc'; subst hc'
             rw [hg] at hb'; injection hb' with hb'; subst hb'
             exact ⟨rfl, rfl, rfl⟩
-  | delay d n atRest => exact RX_store _ (RE_delayChecked hi _ _ _)
+  | delay d n atRest => exact RX_store _ (RX_orRollback hi (RE_delayChecked hi _ _ _))
   | align chs atRest =>
     simp only [stepRaw]
     apply RX_store
+    apply RX_orRollback hi
     repeat' split
     all_goals first | exact RX_fail hi _ | exact RX_done (SX.rfl' hi) | exact RE_alignLoop hi _ _
   | phaseShift phi qs b => exact RX_store _ (RX_phaseShift hi _ _ _)
@@ -326,6 +327,7 @@ theorem stepRaw_RE {s : SeqState} (hd : DevOk s.dev) (hde : DevOkE s.dev) (hi : 
             split
             · exact RX_fail hi _
             · rename_i detOff _
+              apply RX_orRollback hi
               unfold enableEomCommit
               apply RX_bind
               · apply RX_withChan hi
@@ -354,10 +356,12 @@ theorem stepRaw_RE {s : SeqState} (hd : DevOk s.dev) (hde : DevOkE s.dev) (hi : 
           split
           · exact RX_fail hi _
           · rename_i detOff _
-            exact RE_modifyEomCommit hi e detOff (validateChannel_get hv) (by simpa using hmode)
+            exact RX_orRollback hi
+              (RE_modifyEomCommit hi e detOff (validateChannel_get hv) (by simpa using hmode))
   | disableEom n corr =>
     simp only [stepRaw]
     apply RX_store
+    apply RX_orRollback hi
     split
     · exact RX_fail hi _
     · cases hv : s.validateChannel n false with
